@@ -14,6 +14,7 @@ import KiraModel.Exec.SuiteWav
 import KiraModel.Exec.SuiteStatic
 import KiraModel.Exec.SuiteMixer
 import KiraModel.Exec.SuiteFxA
+import KiraModel.Exec.SuiteFxB
 
 open K.Exec K.Exec.Clock K.Exec.Wav
 
@@ -45,6 +46,7 @@ def suiteOf (name : String) : Option Suite :=
   | "static" | "static_ood" => some { σ := Static.StaticSuiteState, init := {}, step := Static.staticStep }
   | "mixer" | "mixtrk" | "mixpart" => some { σ := MixState, init := {}, step := mixStep }
   | "fxa" => some { σ := FxAState, init := {}, step := fxaStep }
+  | "fxb" => some { σ := FxbState, init := {}, step := fxbStep }
   | _ => none
 
 def tokens (line : String) : List String :=
